@@ -74,6 +74,15 @@ def closures(tier: str) -> List[Dict[str, Any]]:
            "rig_b.yaml": {"message_defs": {"_RESERVED_": {"id": ["4800 to 4889"]}, "RB": {"id": 4890, "fields": {"b": "double"}}}}}
     out.append({"files": defx.Program(big).to_json()["files"], "kw": {"import_coredefs": False}, "label": "large reserved blocks in three files", "feats": []})
     out.append({"files": defx.Program(big).to_json()["files"], "kw": {"import_coredefs": True}, "label": "large reserved blocks in three files + core", "feats": []})
+    # an IMPORTED file carries compiler options of its own (a vendor's file compiled stand-alone elsewhere); the files read before
+    # and after it hold definitions that need padding
+    padme = lambda nm, mid: {nm: {"id": mid, "fields": {"flag": "char", "count": "int32", "t": "double", "tail": "int16"}}}
+    for vopts in ({"AUTO_PAD": "false", "VALIDATE_ALIGNMENT": "false"}, {"VALIDATE_ALIGNMENT": "false"}, {"AUTO_PAD": "false"}):
+        mixed = {"root.yaml": {"imports": ["early.yaml", "vendor/lib.yaml", "late.yaml"], "message_defs": padme("ROOT_SAMPLE", 4540)},
+                 "early.yaml": {"message_defs": padme("EARLY_SAMPLE", 4541)},
+                 "vendor/lib.yaml": {"compiler_options": vopts, "struct_defs": {"VEN": {"fields": {"a": "int32", "b": "int32"}}}},
+                 "late.yaml": {"message_defs": padme("LATE_SAMPLE", 4542)}}
+        out.append({"files": defx.Program(mixed).to_json()["files"], "kw": {"import_coredefs": False}, "label": f"an imported file with compiler options {sorted(vopts)}", "feats": []})
     # long string constants (a URL, a sentence, text with colons): what the combined file makes of them must read back
     longs = {"root.yaml": {"string_constants": {"DOC_URL": "see https://example.org/a/very/long/path/that/goes/on/and/on/for/more/than/eighty/characters/in/total/index.html",
                                                 "LONG_PLAIN": " ".join(["word"] * 40), "COLON_TXT": " ".join(["at 12:30:00 key:value"] * 8),
@@ -94,7 +103,8 @@ def run_group(args) -> List[Dict[str, Any]]:
     problems_all = []
     try:
         specs = []
-        for run, (seed, cwd) in enumerate((("0", "w0"), ("271828", "w1/nested/deeper"))):
+        # (working directories that happen to be called like the package's own definition directory: a name is not a location)
+        for run, (seed, cwd) in enumerate((("0", "w0/core_defs"), ("271828", "w1/nested/deeper"))):
             cases = []
             # the second run compiles the closures of the group in reverse order: history must not matter
             for k, cl in (list(enumerate(group)) if run == 0 else list(enumerate(group))[::-1]):
